@@ -82,14 +82,41 @@ func checkC09(c *Ctx) {
 	r.Rule("R09.1", "nobody retains the caller's key slice", 15)
 	r.Rule("R09.2", "stored keys are private copies (every Write)", 3)
 	r.Rule("R09.3", "hash lookups are confirmed by the full key before the entry is used or deleted", 4)
+	r.Rule("R09.4", "Failover's per-key build locks are keyed by string(key) (not by a hash: colliding keys must not share a build)", 2)
 	r.NotDecided = []string{"xxhash collisions themselves", "user backends / loggers keeping the slice"}
 	c.c09Retention()
 	for _, b := range backends {
-		// R09.2 through the Write rule of C07, reported under this property's id
+		c.c09WriteCopies(b)
+		if b.Sharded {
+			c.c09Confirm(b)
+		}
+	}
+	// R09.4: the per-key build locks of the Failover frontends are keyed by the full key, not by a hash of it
+	for _, sib := range siblings {
+		fo := c.failover(sib)
+		if fo.Err != nil {
+			continue
+		}
+		c.borrow("C01", func() { c.c01Sibling(fo) }, func(o *coreObl) (string, bool) {
+			if o.Rule == "R01.2" && (o.Status == "discharged" || strings.HasSuffix(o.What, "-key")) {
+				return "R09.4", true
+			}
+			if o.Rule == "R01.5" && o.Status != "discharged" && strings.HasSuffix(o.What, "release-key") {
+				return "R09.4", true
+			}
+			return "", false
+		})
+	}
+}
+
+// c09WriteCopies: R09.2 for one backend.
+func (c *Ctx) c09WriteCopies(b BK) {
+	r := c.R
+	{
 		run := c.bk(b, b.Name+".Write", true)
 		if run.err != nil {
 			r.Unknown("R09.2", b.Name+".Write", run.err.Error())
-			continue
+			return
 		}
 		key := keyParamOf(run.e)
 		bad := false
@@ -117,9 +144,6 @@ func checkC09(c *Ctx) {
 			r.Unknown("R09.2", b.Name+".Write", "no store found")
 		} else if !bad {
 			r.OK("R09.2", b.Name+".Write", fmt.Sprintf("%d stores on %d paths", n, len(run.paths)))
-		}
-		if b.Sharded {
-			c.c09Confirm(b)
 		}
 	}
 }
